@@ -207,3 +207,36 @@ func H11_credentials() {
 		vrtReach("C11.refused_credentials")
 	}
 }
+
+// H11_connack_first: the client is slow to read, and has pipelined a request
+// behind its CONNECT: whatever the broker writes to the connection waits until
+// the client reads again (and then the write that came last is served first,
+// as a socket may do with several blocked writers). The CONNACK is still the
+// first packet of the stream: nothing else is written before it has left.
+func H11_connack_first() {
+	b := vrtBroker("mockSuccess")
+	resumed := vrtBool("resumed_session_with_traffic")
+	var pub *vrtConn
+	if resumed {
+		c0, _ := b.connect(vrtConnectPkt([]byte("c"), false))
+		vrtExchange(c0, &specPkt{Typ: specSUBSCRIBE, ID: 1, Topics: [][]byte{[]byte("t")}, QoS: []byte{0}})
+		vrtEnd(c0, 1)
+		pub, _ = b.connect(vrtConnectPkt([]byte("p"), true))
+	}
+	c := b.open()
+	c.peerHold(true)
+	c.peerSend(append(specEncode(vrtConnectPkt([]byte("c"), !resumed)), specEncode(&specPkt{Typ: specPINGREQ})...))
+	vrtQuiesce()
+	if resumed {
+		// another client publishes to the resumed session's subscription during the reconnect
+		vrtExchange(pub, &specPkt{Typ: specPUBLISH, Topic: []byte("t"), Payload: []byte("m")})
+	}
+	c.peerHold(false)
+	vrtQuiesce()
+	got, ok := vrtParse(c.peerTake())
+	vrtAssert("C11.stream_wellformed", ok && len(got) >= 2)
+	if ok && len(got) >= 1 {
+		vrtAssert("C11.connack_is_the_first_packet", got[0].Typ == specCONNACK)
+	}
+	vrtReach("C11.connack_first")
+}
